@@ -343,7 +343,11 @@ pub fn run(o: &Opts) -> Report {
                                 if canon(&json2) != canon(json) {
                                     // excused by the recorded f64 finding only when the field holds an amount, the amount is long, and nothing but numbers differs
                                     let f64_only = holds_amount(&sp.name) && crate::fmt::beyond_f64(&c) && no_numbers(&json2) == no_numbers(json);
-                                    rep.fail(&format!("C02|value_changed|{}|{}", sp.name, if f64_only { "f64-precision" } else { cls.as_str() }), wit("re-parsing the serialisation gives a different value", json!({"ser": ser, "first": json, "second": json2})));
+                                    // 19 and 61 always print two decimals (recorded findings): only a content with more than two written
+                                    // decimals whose re-read value differs in numbers alone is that finding
+                                    let written_dec = c.find([',', '.']).map(|p| c[p + 1..].bytes().take_while(|b| b.is_ascii_digit()).count()).unwrap_or(0);
+                                    let two_dec = (sp.name == "Field19" || sp.name == "Field61") && written_dec > 2 && no_numbers(&json2) == no_numbers(json);
+                                    rep.fail(&format!("C02|value_changed|{}|{}", sp.name, if f64_only { "f64-precision" } else if two_dec { "more-than-two-decimals" } else { cls.as_str() }), wit("re-parsing the serialisation gives a different value", json!({"ser": ser, "first": json, "second": json2})));
                                 } else if &ser2 != ser {
                                     rep.fail(&format!("C02|not_fixed_point|{}|{}", sp.name, cls), wit("second serialisation differs", json!({"ser": ser, "ser2": ser2})));
                                 }
